@@ -35,7 +35,11 @@ def register(PROPS, HARNESS_PKGS):
                 "mc": [{"module": "Registry", "cfg": "Registry_mc.cfg", "quick_params": {"MaxLen": 3, "Conc": "TRUE"},
                         "thorough_params": {"MaxLen": 3, "Conc": "TRUE"}}],
                 "quick": {"gen": [_rgen(), _rsim(2500, 4)]},
-                "thorough": {"gen": [_rgen()]},
+                "thorough": {"gen": [_rgen(MaxLen=3),
+                                     _rgen(Eps='{"e1", "e2", "e3"}', Listings="ListingsMid", BadLists="BadAll", FailKinds="FailAll"),
+                                     _rgen(Filters="FiltersQuick"),
+                                     _rsim(20000, 6), _rsim(4000, 10)],
+                             "sample": 45000},
                 "pkg": "internal/adapter/discovery", "test": "TestVerif_Catalogue",
                 "harness_dirs": ["c10disc", "c10reg"],
                 "trace": {"module": "RegistryTrace", "cfg": "Registry_trace.cfg"},
